@@ -20,6 +20,7 @@ import (
 	"github.com/ipld/go-ipld-prime/traversal/selector"
 	selectorparse "github.com/ipld/go-ipld-prime/traversal/selector/parse"
 	"github.com/multiformats/go-multicodec"
+	mh "github.com/multiformats/go-multihash"
 )
 
 // refWalk: the walk `car get-dag` asks the traversal engine for (match-all-recursively, each link
@@ -239,6 +240,17 @@ func famC19(g *Gen, o *Out, n int, thorough bool) {
 			maxB = 9
 		}
 		a := g.c19Archive(maxB)
+		if c == 0 {
+			// fixed: a selected block that occurs twice before other selected blocks, the last of them the
+			// root (A A B C, roots = C): commands that count matches or stop early lose B or C
+			mk := func(d string) Blk {
+				h, _ := mh.Sum([]byte(d), mh.SHA2_256, -1)
+				return Blk{cid.NewCidV1(cid.Raw, h), []byte(d)}
+			}
+			bA, bB, bC := mk("block A"), mk("block B, longer than A"), mk("C")
+			a = c19Archive{roots: []cid.Cid{bC.C}, bs: []Blk{bA, bA, bB, bC}, codec: "mh", ver: 1}
+			a.bytes = writeAll(a.roots, a.bs, true)
+		}
 		o.HashBlocks(a.bs)
 		in := filepath.Join(dir, "in.car")
 		os.WriteFile(in, a.bytes, 0o644)
@@ -328,6 +340,9 @@ func famC19(g *Gen, o *Out, n int, thorough bool) {
 		{
 			var sel []cid.Cid
 			all := g.pick(3) == 0
+			if c == 0 {
+				all = true
+			}
 			for _, b := range a.bs {
 				if all || g.pick(2) == 0 {
 					sel = append(sel, b.C)
@@ -335,6 +350,9 @@ func famC19(g *Gen, o *Out, n int, thorough bool) {
 			}
 			if g.pick(3) == 0 {
 				sel = append(sel, g.Block().C) // a CID that is not in the archive
+			}
+			if c == 0 {
+				sel = []cid.Cid{a.bs[0].C, a.bs[2].C, a.bs[3].C} // exactly the distinct CIDs of the archive
 			}
 			var lines []string
 			for _, s := range sel {
